@@ -139,6 +139,13 @@ class C09(Prop):
                 want = sorted(h for h, t in spawn_t.items() if t <= e["t"] and end_t.get(h, 1e18) > e["t"])
                 if l[1] != want:
                     fails.append(f"all_task_handles() at t={e['t']} = {l[1]}, the spawned tasks that have not finished are {want}")
+            elif l[0] == "observed":
+                # after an exception has escaped a task the others are being cancelled; still, a task that ended in an
+                # earlier instant is not in the handle set, and nothing is that was never spawned
+                stale = sorted(h for h in l[1] if end_t.get(h, 1e18) < e["t"] - 1e-9 or h not in spawn_t)
+                if stale:
+                    fails.append(f"all_task_handles() at t={e['t']} = {l[1]} still lists {stale}, which ended at "
+                                 f"{[end_t.get(h) for h in stale]}")
             elif l[0] == "taskBegan":
                 if not l[2]:
                     fails.append(f"task {l[1]} does not run in a fresh context inheriting from the factory's own context")
